@@ -137,6 +137,10 @@ func checkC12(c *Ctx, r *Report, tier string) {
 	r.Rule("C12.R2", "panic-capable constructs on untrusted operands reachable from an RPC root or an apply root need a dominating guard: Must-style helpers on request bytes, remainder/division by a stored count, rand.Intn(len) of a possibly empty list, &x[0] of a possibly empty vector, a write into a possibly nil request map, a make sized by a request number without upper bound", 12)
 	r.Rule("C12.R3", "apply-fatal parses are proposer-guaranteed: every id that an apply function parses with a fatal error path is, at every proposer of that message, produced by uuid.UUID.Bytes() or validated before the proposal", 4)
 	r.Rule("C12.R4", "the batch size cap dominates the fan-out on every public batch entry point", 3)
+	r.Rule("C12.R5", "the creation proposer replaces the variable-length fields of the client's dataset message (id, partition table) with server-generated content on every path to the proposal", 2)
+	proposerOwnsStructuredFields(c, r, "C12.R5")
+	r.Rule("C12.R6", "no request wedges the server on a mutex: no lock-order cycle between mutex fields, no re-acquisition of a mutex that a caller on the same object may already hold", 2)
+	lockOrderRule(c, r, "C12.R6", newLockWorld(c), nil)
 	ro := discoverRoles(c)
 	var roots []*ssa.Function
 	for _, f := range ro.rpcRoots {
